@@ -96,6 +96,27 @@ def relations(rng, tier, rpt):
         bad.append({"property": "C20", "entry_point": what, "request_lines": [], "relation": what, "input": inp,
                     "impl_output": got, "model_output": want, "no_failing_input": False})
 
+    # one wallet object asked for many (change, index) pairs, incl. the same index under both changes and repeated pairs:
+    # every answer equals the one of a fresh wallet asked only for that pair
+    for i in range(6 if tier == "quick" else 120):
+        k = rand_priv(rng, "secp256k1")
+        seed = rand_seed(rng)
+        makers = [("ElectrumV1(private)", lambda: ElectrumV1.FromPrivateKey(k)),
+                  ("ElectrumV1(public-only)", lambda: ElectrumV1.FromPublicKey(ElectrumV1.FromPrivateKey(k).MasterPublicKey().RawCompressed().ToBytes())),
+                  ("ElectrumV2Standard", lambda: ElectrumV2Standard.FromSeed(seed)), ("ElectrumV2Segwit", lambda: ElectrumV2Segwit.FromSeed(seed))]
+        a1, a2 = rng.getrandbits(10), rng.choice(IDX_EDGE[:4])
+        pairs = [(0, a1), (1, a1), (0, a1), (1, a2), (0, a2), (a1, a1), (1, a1), (a1, 0), (0, 0)]
+        for name, mk in makers:
+            shared = mk()
+            for ch_, ad_ in pairs:
+                n += 1
+                got = (shared.GetAddress(ch_, ad_), shared.GetPublicKey(ch_, ad_).RawCompressed().ToBytes().hex())
+                fresh = mk()
+                want = (fresh.GetAddress(ch_, ad_), fresh.GetPublicKey(ch_, ad_).RawCompressed().ToBytes().hex())
+                if got != want:
+                    rep("%s: the answer for (change, index) depends on the pairs the same wallet object was asked before" % name,
+                        "%s pairs=%s at %s" % ((k if "V1" in name else seed).hex(), pairs, (ch_, ad_)), str(got), str(want))
+                    break
     for i in range(15 if tier == "quick" else 400):
         k = rand_priv(rng, "secp256k1")
         ch, ad = rng.choice(IDX_EDGE), rng.getrandbits(32)
